@@ -406,6 +406,8 @@ pub trait EnvLike {
     fn time(&self) -> u64;
     fn obs(&self, a: usize) -> EnvAssetObs;
     fn book_obs(&self, a: usize) -> BookObs;
+    /// JSON snapshot of one asset's live book (the book of an environment is an ordinary serialisable OrderBook)
+    fn book_json(&self, a: usize) -> String;
     fn status(&self, a: usize, id: usize) -> u8;
     fn order(&self, a: usize, id: usize) -> OOrder;
     /// Env-level accessors that duplicate book-level ones (get_orders / get_trades through the env)
@@ -453,6 +455,9 @@ impl<const L: usize> EnvLike for Env<L> {
             cached_l2: conv_l2(self.level_2_data()),
             hist: conv_hist(self.get_level_2_data_history(), self.get_touch_volumes(), self.get_touch_order_counts(), self.get_trade_vols()),
         }
+    }
+    fn book_json(&self, _a: usize) -> String {
+        serde_json::to_string(self.get_orderbook()).unwrap_or_default()
     }
     fn book_obs(&self, _a: usize) -> BookObs {
         book_obs(self.get_orderbook(), false)
@@ -514,6 +519,9 @@ impl<const A: usize, const L: usize> EnvLike for MarketEnv<A, L> {
             cached_l2: conv_l2(&self.level_2_data()[a]),
             hist: conv_hist(self.get_level_2_data_history(a), self.get_touch_volumes(a), self.get_touch_order_counts(a), self.get_trade_vols(a)),
         }
+    }
+    fn book_json(&self, a: usize) -> String {
+        serde_json::to_string(self.get_market().get_order_book(a)).unwrap_or_default()
     }
     fn book_obs(&self, a: usize) -> BookObs {
         book_obs(self.get_market().get_order_book(a), false)
